@@ -27,7 +27,7 @@ class SchedRaised(Exception):
 class VTrial:
     __slots__ = (
         "trial_id", "config", "status", "next_level", "run_max", "last_result", "run_no",
-        "reports", "trial", "last_level", "reports_in_run", "source", "run_start_level",
+        "reports", "trial", "last_level", "reports_in_run", "source", "run_start_level", "stride",
     )
 
     def __init__(self, trial_id, config, trial):
@@ -44,6 +44,7 @@ class VTrial:
         self.reports = []  # (run_no, level, value, decision)
         self.source = None  # checkpoint_trial_id for warm-started trials
         self.run_start_level = 1
+        self.stride = 1  # reports every ``stride``-th resource level (sparse reporters skip levels)
 
 
 def make_trial(trial_id, config):
@@ -181,6 +182,12 @@ class VTuner:
                 vt.next_level = (src.last_level if src is not None else 0) + 1
                 if self.p.get("pbt_restart_levels", True):
                     vt.next_level = 1
+            strides = self.p.get("strides")
+            if strides:
+                vt.stride = int(strides[next_id % len(strides)])
+                if vt.stride > 1 and self.p.get("stride_first_level_offset", True):
+                    # e.g. validation every 2nd epoch: 2, 4, 6, ... (but every script reports at least once)
+                    vt.next_level = min(vt.next_level + vt.stride - 1, vt.run_max)
             vt.run_start_level = vt.next_level
             self.trials[next_id] = vt
             self.running.append(next_id)
@@ -243,7 +250,7 @@ class VTuner:
         decision = self.port.on_trial_result(vt.trial, dict(result))
         vt.last_result = result
         vt.last_level = level
-        vt.next_level = level + 1
+        vt.next_level = level + vt.stride
         vt.reports_in_run += 1
         vt.reports.append((vt.run_no, level, result.get(self.p["metric"]), decision))
         self.events.append(("result", tid, vt.run_no, level, decision))
